@@ -8,6 +8,7 @@ import (
 	"runtime"
 	"runtime/debug"
 	"sort"
+	"sync/atomic"
 	"time"
 )
 
@@ -41,6 +42,11 @@ type BatchResult struct {
 	Samples      []Witness
 	Panics       int64
 }
+
+var abortBatch atomic.Bool
+
+// AbortBatch makes the worker stop after the current case (used by a monitor that had to abandon a call).
+func AbortBatch() { abortBatch.Store(true) }
 
 const maxWitnessPerBatch = 64
 const maxWitnessPerClass = 3
@@ -125,6 +131,10 @@ func RunWorker(m *Monitor, tier string, seed, a, b int64, out string) error {
 	var jb [8]byte
 	sampleAt := a + int64(mix(uint64(seed)^uint64(a))%uint64(b-a))
 	for i := a; i < b; i++ {
+		if abortBatch.Load() { // a monitor abandoned a call that does not return: the rest of the batch is not evaluated
+			res.Inconclusive["skipped-after-abandoned-call"] += b - i
+			break
+		}
 		binary.LittleEndian.PutUint64(jb[:], uint64(i))
 		jf.WriteAt(jb[:], 0)
 		c := newCase(m, tier, seed, i)
